@@ -64,13 +64,19 @@ func (p *Prog) drawValue(t *rapid.T, T Type) *big.Int {
 // have at most 10 bits in total, else up to max drawn vectors (boundary values
 // and random ones).
 func DrawInputs(t *rapid.T, p *Prog, max int) [][]string {
+	return DrawInputsN(t, p, 10, max)
+}
+
+// DrawInputsN is DrawInputs with a configurable exhaustive limit: all
+// assignments when the inputs have at most exhBits bits in total.
+func DrawInputsN(t *rapid.T, p *Prog, exhBits, max int) [][]string {
 	main := p.Main()
 	total := 0
 	for _, pa := range main.Params {
 		total += p.Bits(pa.T)
 	}
 	var res [][]string
-	if total <= 10 {
+	if total <= exhBits {
 		for v := 0; v < 1<<total; v++ {
 			var vec []string
 			ofs := 0
@@ -83,7 +89,10 @@ func DrawInputs(t *rapid.T, p *Prog, max int) [][]string {
 		}
 		return res
 	}
-	n := rapid.IntRange(2, max).Draw(t, "nvectors")
+	n := max
+	if max <= 16 {
+		n = rapid.IntRange(2, max).Draw(t, "nvectors")
+	}
 	for i := 0; i < n; i++ {
 		var vec []string
 		for _, pa := range main.Params {
